@@ -20,6 +20,7 @@ import (
 	"os"
 	"path/filepath"
 	"reflect"
+	"regexp"
 	"sort"
 	"strings"
 	"sync/atomic"
@@ -250,6 +251,7 @@ type verifC04Server struct {
 type verifC04World struct {
 	dir     string
 	mgr     *auth.Manager
+	ref     []verifC04RefUser // the harness' own reading of the permission table in force
 	servers map[string]*verifC04Server
 	// kept alive
 	api *API
@@ -339,7 +341,8 @@ func verifC04NewWorld() *verifC04World {
 		"pathDefaults:\n  runOnReady: echo " + verifC04Canary + "\n" +
 		"paths:\n" +
 		"  cam1:\n    source: rtsp://" + verifC04Canary + ".host/stream\n" +
-		"  " + verifC04Rec + ":\n    recordPath: " + recPath + "\n"
+		"  " + verifC04Rec + ":\n    recordPath: " + recPath + "\n" +
+		"  public/a:\n    recordPath: " + recPath + "\n"
 	cf := filepath.Join(dir, "mediamtx.yml")
 	if err = os.WriteFile(cf, []byte(yml), 0o644); err != nil {
 		panic(err)
@@ -470,21 +473,110 @@ func (q *verifC04Req) queryPath() string {
 	return ""
 }
 
+// ---------- reference meaning of a permission table ----------
+//
+// "Admitted for action A (on path P)" is decided by the harness' OWN reading of the generated table, not by
+// internal/auth: the servers under test call the real auth.Manager, and a defect there (e.g. a playback
+// permission whose path is ignored) must show up as a difference.  Fragment: internal users, plain or sha256
+// credentials, CIDR/IP lists, permission path empty / exact / ~regexp for publish, read and playback.
+
+type verifC04RefUser struct {
+	user, pass string
+	nets       []*net.IPNet
+	perms      [][2]string // action, path
+}
+
+func verifC04RefParse(fs []string) []verifC04RefUser {
+	var out []verifC04RefUser
+	for _, f := range fs {
+		p := strings.Split(f[1:], ",")
+		u := verifC04RefUser{user: verifutil.UnHexS(p[0]), pass: verifutil.UnHexS(p[1])}
+		if p[2] != "-" {
+			for _, c := range strings.Split(p[2], "+") {
+				if !strings.Contains(c, "/") {
+					c += "/32"
+				}
+				_, n, err := net.ParseCIDR(c)
+				if err != nil {
+					panic(err)
+				}
+				u.nets = append(u.nets, n)
+			}
+		}
+		if p[3] != "-" {
+			for _, a := range strings.Split(p[3], ";") {
+				act, pth, _ := strings.Cut(a, "@")
+				if pth != "" {
+					pth = verifutil.UnHexS(pth)
+				}
+				u.perms = append(u.perms, [2]string{act, pth})
+			}
+		}
+		out = append(out, u)
+	}
+	return out
+}
+
+func verifC04RefCred(stored, guess string) bool {
+	if strings.HasPrefix(stored, "sha256:") {
+		return stored[len("sha256:"):] == verifC04Sha(guess)
+	}
+	return stored == "" || stored == guess
+}
+
+func verifC04RefAdmit(users []verifC04RefUser, action, path, user, pass string, ip net.IP) bool {
+	for _, u := range users {
+		if len(u.nets) != 0 {
+			in := false
+			for _, n := range u.nets {
+				in = in || n.Contains(ip)
+			}
+			if !in {
+				continue
+			}
+		}
+		perm := false
+		for _, p := range u.perms {
+			if p[0] != action {
+				continue
+			}
+			bound := action == "publish" || action == "read" || action == "playback"
+			switch {
+			case !bound || p[1] == "":
+				perm = true
+			case strings.HasPrefix(p[1], "~"):
+				if m, err := regexp.MatchString(p[1][1:], path); err == nil && m {
+					perm = true
+				}
+			default:
+				perm = perm || p[1] == path
+			}
+		}
+		if !perm {
+			continue
+		}
+		if u.user == "any" || (verifC04RefCred(u.user, user) && verifC04RefCred(u.pass, pass)) {
+			return true
+		}
+	}
+	return false
+}
+
 // oracle: is the client admitted for the action the property names (playback: on the requested path)?
 func (w *verifC04World) oracle(q *verifC04Req) (valid bool, res string) {
 	s := w.servers[q.srv]
 	host, _, _ := net.SplitHostPort(q.remote)
-	ar := &auth.Request{Action: s.action, Query: q.query, Credentials: q.creds(), IP: net.ParseIP(host), EnableAskCredentials: true}
+	c := q.creds()
 	valid = true
+	path := ""
 	if q.srv == "playback" {
-		ar.Path = q.queryPath()
-		valid = conf.IsValidPathName(ar.Path) == nil
+		path = q.queryPath()
+		valid = conf.IsValidPathName(path) == nil
 	}
-	_, err := w.mgr.Authenticate(ar)
 	switch {
-	case err == nil:
+	case verifC04RefAdmit(w.ref, string(s.action), path, c.User, c.Pass, net.ParseIP(host)):
 		res = "ok"
-	case err.AskCredentials:
+	case c.User == "" && c.Pass == "": // EnableAskCredentials and nothing offered (a bearer token is not looked at)
 		res = "ask"
 	default:
 		res = "deny"
@@ -598,6 +690,7 @@ func verifC04Exec(op string) string {
 	switch f[0] {
 	case "reset":
 		w.mgr.ReloadInternalUsers(verifC04ParseUsers(f[1:]))
+		w.ref = verifC04RefParse(f[1:])
 		return "ok"
 	case "routes":
 		var l []string
@@ -639,7 +732,12 @@ func verifC04PermSet(r *verifutil.Rand, i int) []verifC04User {
 			{user: "apiu", pass: "p1", perms: "api"}, {user: "metu", pass: "p2", perms: "metrics"},
 			{user: "ppu", pass: "p3", perms: "pprof"}, {user: "pbu", pass: "p4", perms: "playback@" + h("cam1")},
 			{user: "pbre", pass: "p5", perms: "playback@" + h("~^recs.*$")},
-			{user: "viewer", pass: "p6", perms: "read;publish"},
+			{user: "media", pass: "p6", perms: "read;publish"},
+			// playback on an exact path and on a regexp only; everything else (e.g. the recorded path) is refused
+			{user: "viewer", pass: "p7", perms: "playback@" + h("cam1") + ";playback@" + h("~^public/")},
+			{user: "pball", pass: "p8", perms: "playback"},
+			// only path-restricted media permissions: no administrative access at all
+			{user: "mediaonly", pass: "p9", perms: "publish@" + h("cam1") + ";read@" + h("~^cam") + ";playback@" + h("cam1")},
 		}
 	case 4: // administrator restricted by IP; anonymous users may only read
 		return []verifC04User{
@@ -650,6 +748,13 @@ func verifC04PermSet(r *verifutil.Rand, i int) []verifC04User {
 		return []verifC04User{{user: "hashed", pass: "s3cret", stored: "sha256:" + verifC04Sha("s3cret"), perms: "api;playback;metrics"}}
 	case 6: // anonymous api only
 		return []verifC04User{{user: "any", perms: "api"}, {user: "m", pass: "mp", perms: "metrics;pprof"}}
+	case 7: // anonymous playback of one path; named users restricted by path and by IP
+		return []verifC04User{
+			{user: "any", perms: "playback@" + h("public/a")},
+			{user: "viewer", pass: "vp", perms: "playback@" + h(verifC04Rec)},
+			{user: "lan", pass: "lp", ips: "10.0.0.0/8", perms: "playback@" + h("~^(cam1|recs)")},
+			{user: "mediaonly", pass: "p9", perms: "publish;read@" + h("cam1")},
+		}
 	}
 	// random table
 	acts := []string{"api", "metrics", "pprof", "playback", "read", "publish"}
@@ -721,10 +826,11 @@ func verifC04Instantiate(r *verifutil.Rand, tmpl string) string {
 	return strings.Join(segs, "/")
 }
 
-func verifC04Query(r *verifutil.Rand, rt verifC04RouteT) string {
+var verifC04PlaybackPaths = []string{"cam1", verifC04Rec, "public/a", "other", "..%2Fx", "", "%2Fabs", "a%20b"}
+
+func verifC04Query(r *verifutil.Rand, rt verifC04RouteT, p string) string {
 	switch {
 	case rt.srv == "playback":
-		p := r.Pick("cam1", verifC04Rec, verifC04Rec, "other", "cam1", "..%2Fx", "", "%2Fabs", "a%20b")
 		q := "path=" + p
 		if p == "" && r.Bool() {
 			q = ""
@@ -765,6 +871,7 @@ func verifC04Gen(r *verifutil.Rand, i int, thorough bool) []string {
 	}
 	ops := []string{reset}
 	w.mgr.ReloadInternalUsers(verifC04ParseUsers(strings.Fields(reset)[1:]))
+	w.ref = verifC04RefParse(strings.Fields(reset)[1:])
 	for _, sn := range []string{"api", "metrics", "pprof", "playback"} {
 		ops = append(ops, "routes "+sn)
 	}
@@ -788,10 +895,25 @@ func verifC04Gen(r *verifutil.Rand, i int, thorough bool) []string {
 		valid, res := w.oracle(q)
 		ops = append(ops, reset, q.line(valid, res))
 	}
+	type routeQ struct {
+		rt verifC04RouteT
+		pp string
+	}
+	var rqs []routeQ
 	for _, rt := range w.routeTable() {
+		if rt.srv == "playback" { // every identity asks for every path: granted, not granted, unknown, malformed
+			for _, pp := range verifC04PlaybackPaths {
+				rqs = append(rqs, routeQ{rt, pp})
+			}
+		} else {
+			rqs = append(rqs, routeQ{rt, ""})
+		}
+	}
+	for _, rq := range rqs {
+		rt := rq.rt
 		for _, id := range ids {
 			q := &verifC04Req{srv: rt.srv, method: rt.method, tmpl: rt.path, path: verifC04Instantiate(r, rt.path),
-				query: verifC04Query(r, rt), place: id.place, user: id.user, pass: id.pass,
+				query: verifC04Query(r, rt, rq.pp), place: id.place, user: id.user, pass: id.pass,
 				remote: r.Pick("10.1.2.3:5555", "192.168.9.9:4444", "10.1.2.3:5555"), xff: r.Chance(1, 4)}
 			if id.place == "query" {
 				q.query = strings.TrimPrefix(q.query+"&user=admin&pass=adminpw", "&")
@@ -868,7 +990,7 @@ func TestVerifC04(t *testing.T) {
 	verifC04W = verifC04NewWorld()
 	defer verifC04W.close()
 	verifutil.Main(t, &verifutil.Harness{
-		ID: "C04", Exec: verifC04Exec, Gen: verifC04Gen, Quick: 9, Thorough: 60,
+		ID: "C04", Exec: verifC04Exec, Gen: verifC04Gen, Quick: 10, Thorough: 60,
 		Class: func(op, impl string) string {
 			f := strings.Fields(op)
 			if f[0] != "req" {
